@@ -373,7 +373,10 @@ def run(ctx):
     return ctx.finish(
         LEVEL,
         explanation='Theorems about the loop bookkeeping for ANY lattice search plugged in (answers only need the right length): strong non-zero peaks are unmatched XOR matched, '
-                    'zero point never unmatched once a match exists, weak set exact; angle_check separation and symmetry; match lattices are weighted fits (C06). Tie: '
+                    'zero point never unmatched once a match exists, weak set exact; angle_check separation and symmetry; match lattices are weighted fits (C06); '
+                    'whatever check/_tumble/_do_match (modelled over Q) return has >= min_match peaks, vector lengths within the limits, separation above the minimum angle '
+                    'and the weighted fit of exactly its own peaks. Tie: the loop, _tumble\'s step sequence and check regenerated from the source text (bridge lemmas); '
+                    'Tumble.do_pair in exact rationals vs _match_all + _tumble; '
                     'trace-driven -- the answers of the real _find_best_vector_match are recorded at run time and fed to the Coq loop, whose (matches, unmatched, weak, number of '
                     'calls) must equal the implementation\'s; termination premise and oracle postcondition monitored on every trace.',
         rule='clouds of 3..25 points: lattice subsets (+noise, outliers, weak points), two interleaved lattices, random clouds, noise-free lattices <= 10 points; with/without '
